@@ -241,3 +241,61 @@ def analyse(prog):
             and "raise ValueError" in src and ast.unparse(appends[0].func.value) in src.split("raise ValueError")[0]
         ob("F6-register-appends-own-list", f"_session:LDAPSession.{name}", ok, "" if ok else "shape changed: expected duplicate test on and single append to self._packing_options.<kind>.choices")
     return obligations
+
+
+# ---------------------------------------------------------------------------------------------- cost rule (C18)
+def no_retry(prog, cycles):
+    """Obligation per function of a recursive parser cycle: a call to a function of the cycle is not inside a `try` whose
+    handler goes on (anything but an unconditional re-raise / raise of another error as the only statements).
+    Why: the proved contracts give every *returning* call a progress of at least one octet or TLV, so there are at most
+    n returning calls per parse; a *failing* call ends the whole parse only if nobody catches its error and tries again.
+    Together: at most n + 1 calls per parse, each doing work polynomial in its span."""
+    out = []
+    for mod, names in cycles.items():
+        tree = prog.trees.get(mod)
+        if tree is None:
+            continue
+        funcs = {}
+
+        def visit(node, prefix):
+            for ch in ast.iter_child_nodes(node):
+                if isinstance(ch, ast.ClassDef):
+                    visit(ch, prefix + ch.name + ".")
+                elif isinstance(ch, (ast.FunctionDef, ast.AsyncFunctionDef)):
+                    funcs[prefix + ch.name] = ch
+                    visit(ch, prefix + ch.name + ".<locals>.")
+                else:
+                    visit(ch, prefix)
+        visit(tree, "")
+        short = {n.split(".")[-1] for n in names}
+        for qn in names:
+            fn = funcs.get(qn)
+            if fn is None:
+                continue
+            bad = []
+
+            def calls_cycle(n):
+                for c in ast.walk(n):
+                    if isinstance(c, ast.Call):
+                        f = c.func
+                        nm = f.id if isinstance(f, ast.Name) else (f.attr if isinstance(f, ast.Attribute) else None)
+                        if nm in short:
+                            return c
+                return None
+            for t_ in ast.walk(fn):
+                if isinstance(t_, ast.Try):
+                    c = None
+                    for st in t_.body:
+                        c = c or calls_cycle(st)
+                    if c is None:
+                        continue
+                    for h in t_.handlers:
+                        hname = ast.unparse(h.type) if h.type is not None else "BaseException"
+                        only_raises = all(isinstance(st, ast.Raise) for st in h.body)
+                        if hname.endswith("RecursionError") and only_raises:
+                            continue
+                        if not only_raises:
+                            bad.append(f"line {h.lineno}: `except {hname}` around a call of {ast.unparse(c.func)} goes on after the failure")
+            out.append({"name": f"cost/no-retry-after-failure/{mod}:{qn}", "rule": "no-retry-after-failure", "where": f"{mod}:{qn}",
+                        "status": "proved" if not bad else "refuted", "detail": "; ".join(bad)})
+    return out
